@@ -460,6 +460,123 @@ def check_spec_against_R(ctx, tie, cd, streams):
         ctx.count(("SPEC", s.get("valid", True), len(s["parts"]) > 1, s["magicless"]), nontrivial=len(s["frame"]) > 0)
 
 
+# ---------------------------------------------------------------------------------------------
+# ZSTD_window_update: lock-step against coq/Stream/WindowModel.v through the buffer-less API (explicit segment places)
+
+def window_layouts(rng, n):
+    """-> list of (arena size, [(offset, length)], data, params): round buffers wrapping at off-grid places, overlapping and
+    repeated places, contiguous runs; data self-similar at the distance of one lap so that stale indices would be used"""
+    out = []
+    for i in range(n):
+        wl = rng.choice([10, 10, 11, 12])
+        lap = 1 << wl
+        style = rng.choice(["ring", "ring", "ringflush", "random", "same", "contig"])
+        segs, pos = [], 0
+        if style in ("ring", "ringflush"):
+            ring = lap + rng.choice([lap, lap // 2, 1, 100])          # like inBuff: window + block (or other round buffers)
+            total = rng.choice([2, 3, 4]) * lap + rng.randrange(64)
+            left = total
+            while left > 0:
+                k = min(left, rng.choice([1, 1, 2, 3, lap, lap, lap - 1, lap // 2, 100]) if style == "ringflush" else rng.choice([lap, lap, lap // 2, lap - 1, 100]))
+                if pos + k > ring:
+                    pos = 0
+                segs.append((pos, k))
+                pos += k
+                left -= k
+            asz = ring
+        elif style == "random":
+            asz = 3 * lap
+            for _ in range(rng.randint(3, 12)):
+                k = rng.choice([1, 5, 100, lap // 2, lap, lap + 7])
+                segs.append((rng.randrange(0, asz - k), k))
+        elif style == "same":
+            asz = 2 * lap + 16
+            off = rng.randrange(0, lap)
+            for _ in range(rng.randint(3, 8)):
+                segs.append((off + rng.choice([0, 0, 1, 8]), rng.choice([lap // 2, lap, 100, 1])))
+        else:
+            asz = 6 * lap
+            for _ in range(rng.randint(2, 6)):
+                k = rng.choice([1, 100, lap, lap // 2])
+                segs.append((pos, k))
+                pos += k
+        total = sum(k for _, k in segs)
+        period, snip = rng.choice([32, 64, 128]), rng.choice([8, 16, 24])
+        q = rng.randbytes(period)
+        data = bytearray(rng.randbytes(total))
+        for j in range(0, total, period):
+            data[j:j + snip] = q[:min(snip, total - j)]
+        if rng.random() < 0.5:      # second half fully periodic: long matches against whatever sits one lap behind
+            half = total // 2
+            data[half:] = (q * (total // period + 2))[:total - half]
+        p = {"level": rng.choice([1, 3, 5, 5, 6, 6]), "windowLog": wl}
+        if rng.random() < 0.2:
+            p["checksum"] = 1
+        out.append(dict(asz=asz, segs=segs, data=bytes(data), params=p, style=style))
+    return out
+
+
+def run_window_tie(ctx, rng, tie, cd, n):
+    lays = window_layouts(rng, n)
+    lines = ["W v%d %s %d %s %s" % (i, codec.params_str(l["params"]), l["asz"], codec.hx(l["data"]), ",".join("%d:%d" % s for s in l["segs"]))
+             for i, l in enumerate(lays)]
+    out, errs = tie.impl(lines)
+    if errs:
+        ctx.violation(dict(kind="harness-crash", detail=errs[:2]), what="c02_stream crashed in a window run: %r" % (errs[0],))
+    mlines, rcases, dlines = [], [], []
+    for i, l in enumerate(lays):
+        r = out.get("v%d" % i)
+        l["rep"] = dict(kind="window-layout", params=l["params"], arena=l["asz"], segs=l["segs"], style=l["style"], input_hex=l["data"].hex()[:100000])
+        if r is None or not r.startswith("OK "):
+            ctx.violation(dict(l["rep"], result=str(r)[:200]), what="buffer-less compression over arena segments failed: %s" % (str(r)[:100],))
+            continue
+        t = r.split(" ")
+        l["frame"] = codec.unhx(t[1])
+        l["recs"] = [x for x in t[2].split(";") if x]
+        mlines.append("W v%d %s %s %s" % (i, l["recs"][0], ",".join("%d:%d" % s for s in l["segs"]), t[3] if len(t) > 3 else "131072:131072"))
+        rcases.append(("v%d" % i, "nostrict", None, l["frame"]))
+        dlines.append("D v%d stream:%d:%d - - %s %d" % (i, 1 + len(l["frame"]) // 3, 1 + len(l["data"]) // 4, codec.hx(l["frame"]), len(l["data"]) + 16))
+    mo, merrs = tie.model(mlines)
+    mres = cd.model(rcases) if rcases else {}
+    dout, derrs = cd.impl(dlines)
+    if merrs or derrs:
+        ctx.violation(dict(kind="harness-crash", detail=(merrs + derrs)[:2]), what="model / harness crashed in a window run", no_input=True)
+    for i, l in enumerate(lays):
+        if "frame" not in l:
+            continue
+        rep = dict(l["rep"], frame_hex=l["frame"].hex()[:100000])
+        # direct oracle: the frame regenerates the segments in order
+        mr = mres.get("v%d" % i, ("ERR", "missing", -1))
+        d = codec.parse_ok(dout.get("v%d" % i, "ERR missing"))
+        bad = None
+        if mr[0] != "OK" or mr[1] != l["data"]:
+            bad = "the reference decoder R does not regenerate the input (%s)" % ("ERR %s" % (mr[1],) if mr[0] != "OK" else "content differs")
+        elif d[0] != "OK" or d[1] != l["data"]:
+            bad = "libzstd does not regenerate the input (%s)" % (d[1] if d[0] != "OK" else "content differs")
+        if bad:
+            ctx.violation(rep, what="buffer-less compression over arena segments (%s, %s): %s" % (l["style"], l["params"], bad))
+        # window after compressBegin on a fresh context = ZSTD_window_clear(ZSTD_window_init)
+        r0 = l["recs"][0].split(":")
+        if not (r0[2] == r0[3] == "2" and int(r0[4]) - int(r0[0]) == 2 and r0[0] == r0[1]):
+            ctx.violation(dict(rep, window=l["recs"][0]), what="match-state window after compressBegin is not the cleared initial window: %s" % l["recs"][0], no_input=True)
+        m = mo.get("v%d" % i, "ERR missing")
+        mrecs = [x for x in m.split(" ")[1].split(";") if x] if m.startswith("OK ") else None
+        if mrecs is None or mrecs != l["recs"][1:]:
+            k = next((j for j, (a, b) in enumerate(zip(mrecs or [], l["recs"][1:])) if a != b), min(len(mrecs or []), len(l["recs"]) - 1))
+            ctx.violation(dict(rep, segment=k, implementation=(l["recs"][1:] + ["-"])[k], model=((mrecs or []) + ["-"])[k]),
+                          what="ZSTD_window_update and WindowModel disagree after segment %d (base:dictBase:dictLimit:lowLimit:nextSrc): implementation %s, model %s (%s)"
+                               % (k, (l["recs"][1:] + ["-"])[k], ((mrecs or []) + ["-"])[k], l["style"]),
+                          no_input=(bad is None))
+        sig = set()
+        prev = None
+        for x in l["recs"][1:]:
+            v = [int(y) for y in x.split(":")]
+            sig.add((prev is not None and v[0] != prev[0], v[3] == v[2], v[3] > (prev[2] if prev else 0)))
+            prev = v
+        ctx.count(("WIN", l["style"], tuple(sorted(sig))), nontrivial=len(l["segs"]) > 1)
+        ctx.cov["traces_validated_against_impl"] += 1
+
+
 def search_after_broken_proof(ctx, tie, cd):
     """a proof obligation no longer checks: run the direct oracles on a widened case set and report what they find"""
     def search(broken):
@@ -482,7 +599,7 @@ def run(ctx):
     tie = st.Tie(ctx)
     ctx.proof_verdict(search_after_broken_proof(ctx, tie, cd))
     rng = random.Random(ctx.seed)
-    k = 1 if ctx.quick else 6
+    k = 1 if ctx.quick else 16
     # ---- decoder
     streams = cc.build_streams(ctx, rng, cd, 60 * k, 40 * k, 25 * k)
     bad = damaged_streams(ctx, rng, cd, streams, 60 * k)
@@ -511,17 +628,18 @@ def run(ctx):
     core.log("compressor histories: %d (+%d multithreaded)" % (len(kc), len(mt)))
     # ---- other entry points
     run_bufferless_and_legacy(ctx, rng, tie, cd, streams, 24 * k)
+    run_window_tie(ctx, rng, tie, cd, 60 * k)
     if not ctx.quick:
         # supporting test: the same harness under ASan+UBSan on a sample of the histories
         atie = st.Tie(ctx, variant="asan")
         atie._m = tie.m
-        sub = rng.sample(cases, min(len(cases), 600))
+        sub = rng.sample(cases, min(len(cases), 2500))
         for i, c in enumerate(sub):
-            c = dict(c)
-            c["id"] = "a%d" % i
-            sub[i] = c
+            sub[i] = dict(id="a%d" % i, stream=c["stream"], ops=c["ops"], flags=c["flags"], maxcalls=c["maxcalls"],
+                          legit_error=c.get("legit_error"))
         cc.run_decoder_lockstep(ctx, atie, sub, private=False)
-        ksub = [dict(c, id="a" + c["id"]) for c in rng.sample(kc + mt, min(len(kc) + len(mt), 300))]
+        base_keys = ("x", "params", "ops", "pledged", "kind", "mt", "pre")
+        ksub = [dict({k: c.get(k) for k in base_keys}, id="a" + c["id"]) for c in rng.sample(kc + mt, min(len(kc) + len(mt), 900))]
         cc.run_compressor_lockstep(ctx, atie, cd, ksub, private=False, flush_oracle=False)
 
 
